@@ -40,6 +40,16 @@ type Prog struct {
 	exprCache map[token.Pos]string
 	extraOverlay map[string][]byte
 	bigConsts    map[string]string
+	readonlyArgs []string
+}
+
+func (p *Prog) isReadonlyArgs(name string) bool {
+	for _, s := range p.readonlyArgs {
+		if strings.Contains(name, s) {
+			return true
+		}
+	}
+	return false
 }
 
 func repoDir() string {
@@ -72,13 +82,24 @@ func LoadProg(pkgDirs []string, extraOverlay map[string][]byte) (*Prog, error) {
 	for _, d := range pkgDirs {
 		repoFile := filepath.Join(p.repoDir, d, "zz_verif_contracts.go")
 		mirror := filepath.Join(verifDir(), "contracts", d, "zz_verif_contracts.go")
-		if _, err := os.Stat(repoFile); err == nil {
-			p.contractSource[d] = "repo"
-			continue
-		}
-		if data, err := os.ReadFile(mirror); err == nil {
-			overlay[repoFile] = data
-			p.contractSource[d] = "mirror(overlay)"
+		// The copy under /verif/contracts is authoritative (it is what this check was
+		// developed against); the copy committed in the repository is used directly when
+		// it is byte-identical, and is otherwise overridden through the overlay so that a
+		// restored or stale repository never silently runs with other contracts.
+		repoData, rerr := os.ReadFile(repoFile)
+		mirrorData, merr := os.ReadFile(mirror)
+		switch {
+		case merr == nil && rerr == nil && bytes.Equal(repoData, mirrorData):
+			p.contractSource[d] = "repo (identical to /verif/contracts mirror)"
+		case merr == nil:
+			overlay[repoFile] = mirrorData
+			if rerr == nil {
+				p.contractSource[d] = "mirror via overlay (repository copy differs)"
+			} else {
+				p.contractSource[d] = "mirror via overlay (no copy in repository)"
+			}
+		case rerr == nil:
+			p.contractSource[d] = "repo (no mirror)"
 		}
 	}
 	var patterns []string
@@ -151,6 +172,8 @@ func LoadProg(pkgDirs []string, extraOverlay map[string][]byte) (*Prog, error) {
 				p.noEffect = append(p.noEffect, dr.Arg)
 			case "pure-observer":
 				p.pureObs = append(p.pureObs, dr.Arg)
+			case "readonly-args":
+				p.readonlyArgs = append(p.readonlyArgs, dr.Arg)
 			case "bigconst":
 				// directive bigconst <var> <value>: package-level *big.Int holding a constant
 				fs := strings.Fields(dr.Arg)
